@@ -166,6 +166,14 @@ func (w *awalker) exprs(n ast.Node, st astate) {
 				w.emit(st, "call", last(c), e.Pos())
 			}
 		case *ast.SelectorExpr:
+			// the configured equivalence (the Pull comparer) anywhere in a selector chain, e.g.
+			// r.equivalence != nil, r.equivalence.Compare(..): must not occur in the write path at all
+			for _, nm := range chain(e) {
+				if nm == "equivalence" {
+					w.emit(st, "read", "equivalence", e.Pos())
+					break
+				}
+			}
 			if c := chain(e); len(c) >= 2 && tracked[last(c)] && !written[e] {
 				w.emit(st, "read", last(c), e.Pos())
 			}
